@@ -460,8 +460,13 @@ func (s *Store) readRootsScan(defaultToEmpty bool) (err error) {
 		if err != nil {
 			return err
 		}
-		if err := s.checkAndReadRoots(offset, length, rootsEnd); err == nil {
+		err = s.checkAndReadRoots(offset, length, rootsEnd)
+		if err == nil {
 			return nil
+		}
+		var ioErr *rootsReadError
+		if errors.As(err, &ioErr) {
+			return ioErr.err // The file failed; that is not "no roots here".
 		}
 		atomic.AddInt64(&s.size, -1) // Roots were wrong, so keep scanning.
 	}
@@ -506,7 +511,7 @@ func (s *Store) checkAndReadRoots(offset int64, length uint32, rootsEnd []byte) 
 		length == uint32(atomic.LoadInt64(&s.size)-offset) {
 		data := make([]byte, atomic.LoadInt64(&s.size)-offset-int64(len(rootsEnd)))
 		if _, err := s.file.ReadAt(data, offset); err != nil {
-			return err
+			return &rootsReadError{err}
 		}
 		if bytes.Equal(MagicBeg, data[:len(MagicBeg)]) &&
 			bytes.Equal(MagicBeg, data[len(MagicBeg):2*len(MagicBeg)]) {
@@ -515,6 +520,12 @@ func (s *Store) checkAndReadRoots(offset int64, length uint32, rootsEnd []byte) 
 	}
 	return errors.New("invalid roots")
 }
+
+// rootsReadError marks a file error met while reading a candidate root
+// record, as opposed to the candidate not being a root record.
+type rootsReadError struct{ err error }
+
+func (e *rootsReadError) Error() string { return e.err.Error() }
 
 func (s *Store) validateAndSetCollections(data []byte, length uint32) error {
 	var version, length0 uint32
